@@ -182,9 +182,24 @@ class Lean:
     out = p.stdout + p.stderr
     failed = re.findall(r'^- (\S+)$', out, re.M)
     errors = re.findall(r'^error: (\S+\.lean):(\d+):(\d+): (.*)$', out, re.M)
+    errors = [(f, l, c, f'[in {self.enclosing_decl(f, int(l))}] {m}') for f, l, c, m in errors]
     res = dict(ok=p.returncode == 0, failed=failed, errors=errors, log=out[-6000:], wall=time.time() - t0)
     self._built[key] = res
     return res
+
+  @staticmethod
+  def enclosing_decl(relpath: str, line: int) -> str:
+    """Name of the theorem / lemma / def whose text contains `line` of a Lean file (for the replay of a broken
+    proof obligation: the obligation is named, not only located)."""
+    try:
+      src = open(os.path.join(LEAN_DIR, relpath)).read().split('\n')
+    except OSError:
+      return '?'
+    for i in range(min(line, len(src)) - 1, -1, -1):
+      m = re.match(r'^(?:private |protected |noncomputable |@\[[^\]]*\] )*(theorem|lemma|def|instance|abbrev|example|structure|inductive)\s*([^\s:({\[]*)', src[i])
+      if m:
+        return f'{m.group(1)} {m.group(2)}'.strip()
+    return '?'
 
   @staticmethod
   def theorems_of(module: str):
@@ -374,7 +389,22 @@ def run_impl_parallel(modname, cases, jobs):
         pass
     ex.shutdown(wait=False, cancel_futures=True)
     raise InfraError(f'implementation runs exceeded {deadline:.0f}s (a case hangs?)')
-  ex.shutdown()
+  # all results are in: a worker that still has non-daemon helper threads blocked (left over by a case that
+  # hung on purpose) must not wedge the shutdown of the pool - give the workers a grace period, then kill them
+  procs = list(getattr(ex, '_processes', {}).values())
+  ex.shutdown(wait=False, cancel_futures=True)
+  grace = time.time() + 15
+  for proc in procs:
+    try:
+      proc.join(max(0.0, grace - time.time()))
+    except Exception:
+      pass
+  for proc in procs:
+    try:
+      if proc.is_alive():
+        proc.kill()
+    except Exception:
+      pass
   return [r for ch in res for r in ch]
 
 
